@@ -296,6 +296,19 @@ pub fn channel(rng: &mut StdRng, family: &str, bps: usize, n: usize) -> Vec<i32>
                 }
             }
         }
+        f if f.starts_with("nonstat") => {
+            // Non-stationary noise: the loudness alternates between 64-sample stretches, quiet ones fit
+            // a Rice parameter b, loud ones would want b + 3.  With a configured maximum parameter near
+            // b the cheapest partition order differs from the one an unbounded search prefers (C13).
+            let b: u32 = f[7..].parse().unwrap_or(2);
+            let quiet = (1i64 << b).min(hi / 16).max(1);
+            let loud = (1i64 << (b + 3)).min(hi / 2).max(2);
+            let period = [64usize, 128, 192][rng.gen_range(0..3)];
+            for (t, x) in v.iter_mut().enumerate() {
+                let a = if (t / period) % 2 == 0 { quiet } else { loud };
+                *x = rng.gen_range(-a..=a) as i32;
+            }
+        }
         _ => panic!("unknown family {family}"),
     }
     v
